@@ -312,6 +312,57 @@ def job_recurrence(ctx, fmt, nmax, reps=3, ranges=None):
                    bounds={"notation": fmt, "--max": nmax, "repetitions": "1..9", "interval": "P1D..P40D"}, sample_every=100)
 
 
+CLI_TEMPLATES = [["2000-01-01T00:00:00Z"], ["20000101T000000+0530"], ["2000-366T23:59"], ["2000-W01-1T12"],
+                 ["R3/2000-01-01T00Z/P1D"], ["2000-01-01T00Z", "2000-03-01T06:30Z"]]
+
+
+def job_cli_garbage(ctx, argv, which, npos):
+    """malformed arguments, bounded: the positional item `which` of a valid argument vector with every window of
+    `npos` consecutive characters replaced by symbolic printable-ASCII characters.  main() must print exactly one
+    result or leave through SystemExit; any other exception is a traceback."""
+    data = ctx.data
+    C.set_mode(data, "gregorian")
+    install_range_summary(data, "gregorian")
+    install_weeks_summary(data, "gregorian")
+    base = list(argv[which])
+    starts = list(range(0, len(base) - npos + 1))
+
+    def make(e):
+        return {"pos": e.var("pos", 0, len(starts) - 1), "ch": [e.var("c%d" % k, 32, 126) for k in range(npos)]}
+
+    def body(i):
+        st = starts[core.realise(i["pos"])]
+        item = SymStr.make(base[:st] + list(i["ch"]) + base[st + npos:])
+        items = [a for a in argv]
+        items[which] = item
+        strs.VALIDITY_ONLY_FLOAT[0] = True
+        try:
+            return run_main(ctx, list(argv), items=items)
+        finally:
+            strs.VALIDITY_ONLY_FLOAT[0] = False
+
+    def post(i, out):
+        if out[0] == "exc":
+            return [("no traceback: main() leaves only by returning or through SystemExit (%s)" % type(out[1]).__name__, False)]
+        if out[0] != "ok":
+            return [("decided", False)]
+        printed, code = out[1]
+        if code in (None, 0):
+            return [("success prints exactly one result", len(printed) == 1)]
+        return [("failure prints nothing to stdout and exits with a message", len(printed) == 0 and not isinstance(code, int) or code != 0)]
+
+    def case_of(v, i):
+        st = starts[v["pos"]]
+        txt = "".join(base[:st]) + "".join(chr(v["c%d" % k]) for k in range(npos)) + "".join(base[st + npos:])
+        a = list(argv)
+        a[which] = txt
+        return {"check": "malformed_sym", "argv": a}
+
+    return sym_run("cli_garbage[%s,#%d,%d]" % (argv, which, npos), make, None, body, post, case_of,
+                   scenarios=lambda i: {"cli garbage": True},
+                   bounds={"argv": argv, "mutated item": which, "symbolic window": npos, "code points": [32, 126]}, sample_every=200)
+
+
 CONCRETE = [
     # (argv, env) -> compared against the library pipeline in a fresh process
     (["2000-02-28T00Z", "--offset=P2D", "--calendar=360day"], {}),
@@ -335,7 +386,8 @@ CONCRETE = [
     (["R/2020-02-27T00Z/P1D", "--max=4", "--calendar=360day"], {}), (["R3/P1M/2020-03-31T00Z"], {}),
     (["R5/2020/2024"], {}), (["R/P1Y/2020"], {}),
 ]
-MALFORMED = [["2020-13-01"], ["2020-02-30T00Z"], ["garbage"], ["2020-01-01T00Z", "--offset=PXD"], ["2020-01-01T00Z", "nonsense"],
+MALFORMED = [["2020-01-01T06T00Z"], ["2020-01-01T06:00+01:00+02"], ["2020-01-01T00Z", "2020-01-01T06T00Z"], ["R/2020-01-01T06T00Z/P1D"],
+             ["ref", "--ref=2020-01-01T06T00Z"], ["2020-13-01"], ["2020-02-30T00Z"], ["garbage"], ["2020-01-01T00Z", "--offset=PXD"], ["2020-01-01T00Z", "nonsense"],
              ["nonsense", "2020-01-01T00Z"], ["R/2020-01-01T00Z/PXD"], ["R0/2020/P1D"], ["--as-total=H", "PT1X"], ["2020-W54-1"],
              ["2020-01-01T25Z"], ["2020-01-01T00Z", "--offset=P1D", "--offset=foo"], ["Rx/2020/P1D"], ["2020-01-01T00:00:00+25:99x"],
              ["٢٠٢٠-01-01"], ["--as-total=H", "garbage"], ["R/P1D"]]
@@ -491,6 +543,10 @@ def job_concrete(ctx):
 # ---------------------------------------------------------------------------
 def replay(case, M_):
     k = case["check"]
+    if k == "malformed_sym":
+        got = _cli(case["argv"], {})
+        bad = got["traceback"] or (got["code"] in (0, None) and got["out"].count("\n") < 1)
+        return bad, "isodatetime %s -> exit %s, stdout %r, stderr %r, traceback=%s" % (case["argv"], got["code"], got["out"][:80], got["err"][:160], got["traceback"])
     if k == "malformed":
         got = _cli(case["argv"], {})
         bad = not (got["code"] not in (0, None) and not got["traceback"] and got["err"].strip())
@@ -540,6 +596,10 @@ def jobs(tier):
         J.append(("job_diff", dict(shape1=s1, shape2=s2, ranges=rg)))
         for tot in ("H", "m", "S") if (th or s1 == s2) else ("s",):
             J.append(("job_diff", dict(shape1=s1, shape2=s2, total=tot, ranges=rg)))
+    for argv in CLI_TEMPLATES:
+        for which in range(len(argv)):
+            for w in ((1, 2, 3) if th else (1, 2)):
+                J.append(("job_cli_garbage", dict(argv=argv, which=which, npos=w)))
     for fmt in (3, 4, 0):
         for nmax in ((1, 3, 5) if th else (3,)):
             for reps in ((1, 2, 4, 9) if fmt else (1,)):
@@ -558,16 +618,16 @@ INFO = {
                    "strings with symbolic digits; what it prints must equal, character by character, what the library API computes "
                    "for the same strings (parse with dump_as_parsed, shift by the parsed offsets, str; signed difference with "
                    "first + d == second; --as-total in H/M/S; first N points of a recurrence). Options (--calendar, --utc, --ref, "
-                   "--print-format, -s/-f), the two environment variables and 17 malformed argument vectors are run concretely "
+                   "--print-format, -s/-f), the two environment variables and 22 malformed argument vectors are run concretely "
                    "in fresh processes.",
     "bounds": {"quick": {"items": "7 notations (extended/basic calendar, ordinal, week; with/without time and zone), every digit symbolic",
                          "offsets": "P[n]D, -PT[n]H, +P[n]M, and a pair, n in 0..40 symbolic", "digits": "years 2000-2009; month 01/02/11/12, day 20-39, day-of-year 35x/36x, week 5x, hour 20-29, minute/second 50-59, zone 0x:30 (so the explored region straddles month, year and day ends and includes invalid field values); differences: February/March 2003-2004", "differences": "extended/extended and basic/extended calendar notations; --as-total H/M/S",
                          "recurrences": "R[n]/start/P[k]D, R[n]/P[k]D/end (n in 1, 2, 4, 9), R/start/P[k]D with --max=3, interval k in 1..40 days symbolic"},
                "thorough": {"offsets": "all four offset lists for every notation", "recurrences": "--max in 1, 3, 5"}},
-    "outside": ["the malformed-argument clause beyond the 17 concrete vectors (argparse and CPython's regex engine on arbitrary text are not executed symbolically)",
+    "outside": ["the malformed-argument clause beyond the bounded symbolic mutations (every window of 1-2 printable-ASCII characters in 6 valid argument vectors) and the 22 concrete vectors and the bounded symbolic mutations (argparse and CPython's regex engine on arbitrary text are not executed symbolically)",
                 "'now', stdin mode, --parse-format", "argparse itself: it runs on a placeholder argv of the same shape (assumption: its tokenisation depends only on the non-digit characters)"],
     "assumptions": ["time.strptime (stdlib fallback in DateTimeOperator.strptime) is stubbed to raise ValueError for strings without day/month names",
                     "the library API used as the oracle is the subject of C01-C14"],
 }
-REQUIRED_SCENARIOS = {"all": ["cli single item", "negative offset (-P...)", "two offsets", "--utc", "cli two items", "--as-total",
+REQUIRED_SCENARIOS = {"all": ["cli garbage", "cli single item", "negative offset (-P...)", "two offsets", "--utc", "cli two items", "--as-total",
                               "cli recurrence", "cli options and malformed arguments"]}
